@@ -715,7 +715,7 @@ def colt_term(case, res):
 
 
 def gen_colt_case(rng, tier):
-    arity = rng.choice([2, 3])
+    arity = rng.choice([2, 3, 3, 4])
     dom = rng.choice([2, 3, 3])
     nops = rng.range(1, 25)
     ops = []
@@ -771,10 +771,27 @@ def exhaustive_pairs():
     return out
 
 
+def exhaustive_colt():
+    """small-scope sweep of COLT forests: every multiset-free subset of {0,1}^2 inserted, then
+    every pair of get paths (lengths 1 and 2), observing the result forests and all rows"""
+    import itertools
+    rows = [list(r) for r in itertools.product((0, 1), repeat=2)]
+    paths = [[0], [1]] + rows
+    out = []
+    for k in range(len(rows) + 1):
+        for sub in itertools.combinations(rows, k):
+            for p in paths:
+                for q in paths:
+                    ops = [["ins", r] for r in sub] + [["get", p], ["all"], ["get", q], ["all"]]
+                    out.append({"k": "colt", "arity": 2, "ops": ops, "src": "exh"})
+    return out
+
+
 def gen_c08(rng, tier, n):
     cases = load_corpus("C08")
     if tier == "thorough":
         cases += exhaustive_pairs()
+        cases += exhaustive_colt()
     while len(cases) < n:
         r = rng.below(10)
         if r < 5:
